@@ -138,7 +138,11 @@ def h_hist(t, part):
         t.force([part['first']])
     nontrivial = 0
     for step in range(part['n']):
-        o = OPS[t.choice(len(OPS))]
+        pool = OPS
+        if step == 0 and 'slice' in part:
+            m, k0 = part['slice']
+            pool = [o_ for i_, o_ in enumerate(OPS) if i_ % m == k0]
+        o = pool[t.choice(len(pool))]
         nc, nd = len(log['connect']), len(log['disconnect'])
         for e in ES:
             w.take(e)
@@ -330,7 +334,8 @@ def hist_parts(tier):
             for nsconf, classns in (('default', False), ('list', True), ('star', False), ('star', True), ('default', True)):
                 if tier == 'quick' and (nsconf, classns) in (('star', True), ('default', True)) and ac:
                     continue
-                out.append({'async': a, 'always_connect': ac, 'nsconf': nsconf, 'classns': classns, 'n': n})
+                for k0 in range(4):
+                    out.append({'async': a, 'always_connect': ac, 'nsconf': nsconf, 'classns': classns, 'n': n, 'slice': [4, k0]})
     return out
 
 
@@ -346,8 +351,8 @@ def race_parts(tier):
 
 
 CHECKS = [
-    dict(name='history', fn=h_hist, parts=hist_parts, budget={'quick': 80, 'thorough': 1500}, per_path_s=20),
-    dict(name='asyncio-races', fn=h_race, parts=race_parts, budget={'quick': 80, 'thorough': 900}, per_path_s=30),
+    dict(name='history', fn=h_hist, parts=hist_parts, budget={'quick': 180, 'thorough': 1500}, per_path_s=20),
+    dict(name='asyncio-races', fn=h_race, parts=race_parts, budget={'quick': 180, 'thorough': 900}, per_path_s=30),
 ]
 
 META = dict(
